@@ -104,7 +104,10 @@ PROPS["C15"] = {
 }
 
 PROPS["C13"] = {
-    "skeleton_fns": EQUAL + ["httpserver_Runner_Reload", "httpserver_Runner_reloadConfig", "httpserver_Runner_boot", "httpserver_Runner_stopServer"],
+    "skeleton_fns": EQUAL + ["httpserver_Runner_Reload", "httpserver_Runner_reloadConfig", "httpserver_Runner_boot", "httpserver_Runner_stopServer",
+                             # what a configuration handed to Reload() is made of and how the fresh server gets its routes
+                             "httpserver_NewConfig", "httpserver_WithConfigCopy", "httpserver_Config_getMux", "httpserver_Config_createServer",
+                             "httpserver_validateRoutes"],
     "lean_modules": ["GoSup.Props.C13"],
     "theorems": ["GoSup.Props.C13.routesEqual_iff", "GoSup.Props.C13.configEqual_iff", "GoSup.Props.C13.configEqual_symm",
                  "GoSup.Props.C13.c13_reload"],
